@@ -479,6 +479,14 @@ def f_relx():
                                      groups=[group("g", ["a", "b", "g"], required=True)]), values=())
     add("groups contain each other", cmd("p", [arg("a", "a", action="SetTrue"), arg("b", "b", action="SetTrue")],
                                          groups=[group("g1", ["a", "g2"]), group("g2", ["b", "g1"])]), values=())
+    # an argument filled from its environment variable is no occurrence: it neither overrides nor is overridden
+    add("env + overrides", cmd("p", [arg("a", "a", "aa", env="e", overrides=["b"]), arg("b", "b", "bb", defaults=["d"]), arg("c", "c", "cc", env="e2", action="SetTrue")]),
+        values=("v",))
+    add("non-utf8 env", cmd("p", [arg("o", "o", "os", env=b"\xffdir", vp=vp_kind("os"), defaults=["d"]), arg("s", "s", "str", env=b"x\xff", defaults=["d"]),
+                                  arg("f", "f", action="SetTrue")]), values=("v",))
+    add("list relations", cmd("p", [arg("a", "a", "aa", action="SetTrue", overrides=["a", "b", "c"]), arg("b", "b", action="SetTrue", conflicts=["c", "d"]),
+                                    arg("c", "c", action="SetTrue"), arg("d", "d", action="SetTrue", req_unless=["a", "b"]),
+                                    arg("e", "e", "ee", req_if_eq=[("a", "true"), ("b", "true")], requires_ifs=[("1", "c"), ("2", "d")])]), values=("1", "2"))
     add("transitive requires", cmd("p", [arg("a", "a", action="SetTrue", requires=["b"]), arg("b", "b", action="SetTrue", requires=["c"]),
                                          arg("c", "c", action="SetTrue")]), values=())
     add("exclusive + required", cmd("p", [arg("e", "e", action="SetTrue", exclusive=True), arg("r", "r", required=True), arg("f", "f", action="SetTrue")]), values=("v",))
